@@ -384,7 +384,7 @@ def worker(args):
 
 
 def run(ctx):
-    nprog = 40 if ctx.quick else 2500
+    nprog = 80 if ctx.quick else 2500
     server_bin("rel"); adaptor_bin()
     for p in pmap(worker, [("%s/%d" % (ctx.seed, i), nprog, 12 if ctx.quick else 29, 6 if ctx.quick else 12) for i in range(NCPU)]): ctx.merge(p)
     ctx.rule = ("well-typed generated programs (1-6+ declarations in any order, nested arrays, reference parameters, nested control flow, random layouts, CRLF, doc comments) must get "
